@@ -385,3 +385,59 @@ func AppendChainElems(v ssa.Value) (elems []ssa.Value, fromCaller bool) {
 	}
 	return elems, fromCaller
 }
+
+// CellLoadsStoredFrom: loads of variable cells (locals, captured variables) into which — somewhere in the enclosing
+// function and its closures — the idx-th result of a call of callee is stored (-1: any/sole result). Identifies a
+// variable by what it holds, not by its name.
+func CellLoadsStoredFrom(callee Callee, idx int) func(fn *ssa.Function) []ssa.Value {
+	return func(fn *ssa.Function) []ssa.Value {
+		var out []ssa.Value
+		for _, b := range fn.Blocks {
+			for _, in := range b.Instrs {
+				u, ok := in.(*ssa.UnOp)
+				if !ok || u.Op != token.MUL {
+					continue
+				}
+				switch u.X.(type) {
+				case *ssa.Alloc, *ssa.FreeVar:
+				default:
+					continue
+				}
+				for _, st := range storesTo(u.X) {
+					if CallV(callee, idx).M(st.Val) {
+						out = append(out, u)
+						break
+					}
+				}
+			}
+		}
+		return out
+	}
+}
+
+// CellLoadsStoredIn: loads (in fn) of variable cells that are assigned inside the closure cl.
+func CellLoadsStoredIn(cl *ssa.Function, typeName string) func(fn *ssa.Function) []ssa.Value {
+	return func(fn *ssa.Function) []ssa.Value {
+		var out []ssa.Value
+		for _, b := range fn.Blocks {
+			for _, in := range b.Instrs {
+				u, ok := in.(*ssa.UnOp)
+				if !ok || u.Op != token.MUL || u.Type().String() != typeName {
+					continue
+				}
+				switch u.X.(type) {
+				case *ssa.Alloc, *ssa.FreeVar:
+				default:
+					continue
+				}
+				for _, st := range storesTo(u.X) {
+					if st.Parent() == cl {
+						out = append(out, u)
+						break
+					}
+				}
+			}
+		}
+		return out
+	}
+}
